@@ -10,6 +10,7 @@ pub fn run(ctx: &Ctx) -> Outcome {
     run_and_report(ctx, &rtx_after_recovery_rto(ctx.tier, ctx.tier.pick(7, 9)), &mut out);
     run_and_report(ctx, &rtx_piggyback(ctx.tier, ctx.tier.pick(6, 8)), &mut out);
     run_and_report(ctx, &rtx_after_fast_recovery(ctx.tier, ctx.tier.pick(6, 8)), &mut out);
+    run_and_report(ctx, &rtx_after_long_recovery(ctx.tier, ctx.tier.pick(6, 8)), &mut out);
     run_and_report(ctx, &mtu(ctx.tier, 700, Some(600), None, 0, ctx.tier.pick(6, 8)), &mut out);
     run_and_report(ctx, &mtu(ctx.tier, 700, None, None, 0, ctx.tier.pick(6, 8)), &mut out);
     run_and_report(ctx, &mtu_probe_sacked(ctx.tier, 0, ctx.tier.pick(6, 8)), &mut out);
